@@ -85,10 +85,6 @@ def generate(rng, tier):
         {"op": "put", "on": "Q", "v": 1}, {"op": "sleep", "d": 1},
         {"op": "put", "on": "Q", "v": 2}, {"op": "put", "on": "Q", "v": 3},
         {"op": "put", "on": "Q", "v": 4}]})
-    if rng.random() < 0.3:
-        # a sibling that awaits t and does not handle what it gets
-        siblings.append({"name": "watch", "ops": [
-            {"op": "postpone", "k": 1}, {"op": "await_task", "task": "t", "reraise": True}]})
     rng.shuffle(siblings)
     host_body = []
     if rng.random() < 0.4:
